@@ -41,9 +41,9 @@ class Gen:
     """Generates a script step by step against a live implementation world, so that most calls
     are valid; `bad` is the probability of drawing from the malformed stream."""
 
-    def __init__(self, rnd, pool='mix', bad=0.2, ops=None, snap=True, var='a', after=(), before=(), twin=None):
+    def __init__(self, rnd, pool='mix', bad=0.2, ops=None, snap=True, var='a', after=(), before=(), twin=None, max_points=None):
         self.rnd = rnd; self.pool = POOLS[pool]; self.bad = bad; self.snap = snap
-        self.after = list(after); self.before = list(before); self.twin = twin
+        self.after = list(after); self.before = list(before); self.twin = twin; self.max_points = max_points
         self.w = impl.ImplWorld()
         self.lines = []
         self.var = var
@@ -130,6 +130,9 @@ class Gen:
         pts = c.simplicesOfOrder(0)
         if self.twin:
             pts = [x for x in pts if not _is_auto(x)]
+        full = self.max_points is not None and len(c.simplicesOfOrder(0)) >= self.max_points
+        if full and op in ('point', 'subdiv', 'addfrom', 'ensure'):
+            return None          # keep the complex small (flag / Vietoris-Rips complexes explode otherwise)
         if op == 'point':
             n = rnd.choice([None, None] + self.pool) if not bad else self.some_simplex()
             return 'add %s [ ] %s %s' % (v, optname_tok(n), attr_tok(rnd, self.w))
@@ -153,7 +156,7 @@ class Gen:
         if op == 'basis':
             m = rnd.randint(2, 4)
             if not bad:
-                cand = list(pts) + [x for x in self.pool if x not in c]
+                cand = list(pts) + ([] if full else [x for x in self.pool if x not in c][:max(0, (self.max_points or 99) - len(pts))])
                 cand = list(dict.fromkeys(cand))
                 if len(cand) < m:
                     return None
